@@ -81,7 +81,7 @@ class Shadow:
             if o is not None:
                 self.lazy(o, now)
                 if o.healthy:
-                    if w[4] == "fail":
+                    if w[4] != "ok":
                         self.eject_obj(o, now, self.eject_ns, "probe-eject")
                     else:
                         o.healthy = True
@@ -99,7 +99,7 @@ class Shadow:
             o = self.by_name(w[2])
             now = int(w[3])
             if o is not None:
-                if w[4] == "fail":
+                if w[4] != "ok":
                     self.eject_obj(o, now, self.eject_ns, "probe-eject")
                 elif not self.in_window(o, now):
                     o.healthy = True
